@@ -1,7 +1,7 @@
 (** Comparators for C19 cases (no proofs).  A case = one chain of middlewares around one scripted
     handler, invoked [length k_invs] times on the same message object; per invocation the events
     the handler recorded, what the chain returned and the message right afterwards. *)
-From WM Require Import Base.Prelude Simple.Model Simple.Monitor Simple.Throttle.
+From WM Require Import Base.Prelude Simple.Model Simple.Monitor Simple.Throttle Simple.Deadline.
 
 Record inv_obs := Inv { i_trace : list event; i_res : outcome; i_after : vstate }.
 Record c19_case := C19 { k_mws : list mw; k_script : script; k_init : mstate; k_invs : list inv_obs }.
@@ -76,3 +76,13 @@ Definition thr_count_violates (p n a b : Z) : bool := negb (Z.leb ((n - 2) * p) 
 (** the model's own starts for the same arrivals pass with slack 0 (sanity of the encoding) *)
 Definition thr_model_ok (p : Z) (arr : list Z) : bool :=
   spaced p 0 (throttle_run p (new_ticker 0 p) 0 arr).
+
+(** a handler blocking on Done() under small Timeouts: observed Done() times (ns since just before the
+    chain was called), judged by the predicate of C19_deadline_attempts *)
+Record dl_case := DL { dl_dmin : Z; dl_slack : Z; dl_dones : list Z; dl_want : nat }.
+Definition dl_violates (c : dl_case) : bool :=
+  negb (block_ok 0 (dl_dmin c) (dl_slack c) (dl_dones c) && Nat.eqb (length (dl_dones c)) (dl_want c)).
+Definition dl_violations (cs : list dl_case) : list nat := positions (map dl_violates cs).
+(** the model's own times for the same chain (zero latencies) pass with slack 0 *)
+Definition dl_model_ok (c : tchain) (n : nat) (dmin : Z) : bool :=
+  block_ok 0 dmin 0 (attempts n 0 c [] [] []).
